@@ -79,6 +79,7 @@ FAMILIES = {
     "C37": ["srcfac"],
     "C10": ["seqcomp"],
     "C24": ["mcast"],
+    "C32": ["schedobs"],
     "C40": ["op", "resrc"],
     "C08": ["opacity"],
     "C05": ["op"],
@@ -113,6 +114,8 @@ def units_for(prop, tier):
         us += forward_units(prop)
     if "class" in fams:
         us += class_units(prop)
+    if "schedobs" in fams:
+        us.append({"runner": "schedobs", "prop": prop, "id": "reactivex/observer/scheduledobserver.py::ScheduledObserver"})
     if "mcast" in fams:
         us.append({"runner": "mcast", "prop": prop, "id": "reactivex/observable/connectableobservable.py::multicasting"})
     if "seqcomp" in fams:
